@@ -212,6 +212,9 @@ package recordio
 //@   modifies nothing
 
 //@ func readRecordHeaderV4
+//@   assumed-frame
+//@   // (frame assumed: the parser reads through the byte reader it is handed - its counters and its hash state - and nothing else)
+//@   modifies hsum(*), bytes(*), reader.*
 //@   props C12 C04 C09
 //@   replay recordio_damage
 //@   bounded recordio_damage 5-record files, 2 (quick) or 4 (thorough) compression types: every truncation length, every single-byte alteration (255 values) of every record header byte, both readers; file header codes 0..6 x 0..5
@@ -230,12 +233,24 @@ package recordio
 //@   exit [C12,C04:returns-the-decoded-fields] err == nil ==> payloadSizeUncompressed == callres(binary.ReadUvarint, 1, 0) &&
 //@        payloadSizeCompressed == callres(binary.ReadUvarint, 2, 0) && (recordNilBool <==> callres(checksumByteReader.ReadByte, 0, 0) == 1)
 
+// helpers of the positional read: they allocate, nothing else
+//@ func newChecksumByteReader
+//@   props C18
+//@   ensures r0 != nil
+//@   fresh r0
+//@   modifies nothing
+
+//@ func allocateRecordBufferPooled
+//@   props C18
+//@   modifies nothing
+
+// C18: the positional read writes byte buffers (pooled, per call) and objects it allocates, never a field of the reader, its
+// header or its compressor: concurrent reads of one reader share read-only state only. (The legacy formats v1-v3 are outside
+// this frame: precondition.)
 //@ func (*MMapReader).readNextAt
-//@   assumed
-//@   // (assumed is the frame only: the function writes pooled byte buffers and objects it allocates, never the reader's
-//@   //  fields; every exit clause below is verified against the body)
-//@   modifies fresh(*)
-//@   props C12 C04 C09
+//@   modifies bytes(*), hsum(*)
+//@   props C12 C04 C09 C18
+//@   requires [current-format] r.header.fileVersion != Version1 && r.header.fileVersion != Version2 && r.header.fileVersion != Version3
 //@   replay recordio_damage
 //@   requires r.header != nil && r.mmapReader != nil && r.bufferPool != nil
 //@   exit [C12:payload-completely-read] err == nil && !isnil(record) && called(readRecordHeaderV4, 0) ==>
@@ -247,8 +262,10 @@ package recordio
 //@   exit [C04:no-record-without-a-header] called(readRecordHeaderV4, 0) && !headerParsed ==> err != nil && isnil(record)
 
 //@ func (*MMapReader).ReadNextAt
-//@   props C12 C04 C09
+//@   props C12 C04 C09 C18
 //@   requires r.header != nil && r.mmapReader != nil && r.bufferPool != nil
+//@   requires [current-format] r.header.fileVersion != Version1 && r.header.fileVersion != Version2 && r.header.fileVersion != Version3
+//@   modifies bytes(*), hsum(*)
 //@   exit [same-answer-as-the-probe] r0 === callres(MMapReader.readNextAt, 0, 0) && r1 == callres(MMapReader.readNextAt, 0, 2)
 
 // Random access by offset (C04, used by the disk index of C03): the scan looks at every byte as a possible marker start, stays
